@@ -72,7 +72,9 @@ fn tiny_with(stretch: Vec<BlockSpec>) -> Universe {
         vec![
             // an Ironwood-only block in the interior of the S3 batch, off the retention grid
             block(vec![tx(vec![spend("a4"), out("a6", A, Ironwood, Internal, 45_000)])]),
-            block(vec![tx(vec![spend("a2"), out("a5", A, Orchard, Internal, 60_000)])]),
+            // ... and of the change note a3 of S2's spend: scanning S3 before S2 sees the spend of a
+            // CHANGE note before its receipt (chained spends)
+            block(vec![tx(vec![spend("a2"), out("a5", A, Orchard, Internal, 60_000)]), tx(vec![spend("a3"), out("a7", A, Sapling, Internal, 30_000)])]),
         ],
         103,
     );
@@ -96,8 +98,8 @@ fn tiny_with(stretch: Vec<BlockSpec>) -> Universe {
             // ... and on which two transactions of the abandoned branch are mined again, later and at
             // shifted tree positions: a2's (Orchard, main 100101) after y3, b0's (Sapling, to account
             // B; its nullifier depends on the position) after a foreign Sapling output
-            block(vec![tx(vec![out("y3", A, Orchard, External, 44_000), foreign(Sapling, 8_888)]), remine("a2")]),
-            block(vec![remine("b0")]),
+            block(vec![tx(vec![out("y3", A, Orchard, External, 44_000), foreign(Sapling, 8_888)]), remine("a2"), remine("b0")]),
+            BlockSpec::default(),
         ],
         304,
     );
